@@ -271,3 +271,5 @@ LEVEL_TEXT = (
 )
 LEVEL_NOTE = "Trusted: rustc MIR; tokio channels; futures try_join. Not decided: interleavings, the is_closed/enqueue TOCTOU (allowed by the statement)."
 TECHNIQUE = "typestate via construction-site dominance + sibling cross-check + MIR origin tracing + path counting"
+
+WITNESSES = {"C04PendingCannotSend": ("E0599", "no notification method on a pending sink"), "C04SinkNotConstructible": ("E0451", "SubscriptionSink has private fields")}
